@@ -17,8 +17,11 @@ CLAIMS = {
         text=("Deductive proof, for all inputs, of the packetisation contracts of the RTP encoders: every emitted payload is within "
               "PayloadMaxSize, sequence numbers increase by one modulo 2^16 from the encoder state across calls, marker/payload type/SSRC "
               "as stated, and the declared frame (only the sequence counter and fresh memory are written). Postconditions are taken from "
-              "the property statement; callers are checked against callee contracts."),
-        note=TRUST + "Encoders not yet under contract are listed in DESIGN.md section 4 (C06) and in the evidence under not_decided.",
+              "the property statement; callers are checked against callee contracts. Under contract: H264, H265, fragmented, KLV, LPCM, simple audio, "
+              "AC-3, MPEG-1 audio, VP8, VP9, MPEG-TS. A BOUNDED stand-in (labelled bounded, never counted among the obligations discharged, reported "
+              "separately in the evidence under bounded_stand_ins) checks the size limit and consecutive numbering on a finite grid of about 6500 real "
+              "encode runs that includes the encoders NOT under contract (MPEG-4 audio, MPEG-1 video, AV1)."),
+        note=TRUST + "Encoders not under contract (MPEG-4 audio, MPEG-1 video, M-JPEG, AV1 numbering) are decided only on the bounded grid (M-JPEG not at all); see DESIGN.md 8.2 and 8.7 and the evidence under not_decided.",
         design="DESIGN.md section 4, C06",
     ),
 }
